@@ -26,7 +26,7 @@ func (c09) ID() string { return "C09" }
 func (c09) Meta() Meta {
 	return Meta{
 		Level:       "exploration",
-		Rule:        "reference-model monitor: on valid fixture and generated configurations every body is walked with the model's effective schema and the list of addressable declarations is derived (blocks: address from static / label / literal attribute-value steps, one expected target per enabled form - as reference, body as data, dependent body as data, as type of an attribute, unknown nested refs; attributes: as reference / as expression type); CollectReferenceTargets must contain, for each, a target with that address, scope, the declaration's extent as range and its header as definition range (and the literal's type for primitive literal values), and no top-level target whose range is not such a declaration (or a count/for_each attribute / targetable body). Structural invariants on every collected tree, also on byte prefixes and token edits: a nested target's address (and local address) extends its parent's by exactly one step; an index step of a block collection denotes the block's real position (list) or written key (map) and its range is exactly that block's extent; nested ranges lie inside their parent's; definition range inside range. distinct non-trivial = (declaration form, block type kind, nesting depth, dependent-body outcome) of declarations with a target, and nested targets per step kind.",
+		Rule:        "reference-model monitor: on valid fixture and generated configurations every body is walked with the model's effective schema and the list of addressable declarations is derived (blocks: address from static / label / literal attribute-value steps, one expected target per enabled form - as reference, body as data, dependent body as data, as type of an attribute, unknown nested refs; attributes: as reference / as expression type); CollectReferenceTargets must contain, for each, a target with that address, scope, the declaration's extent as range and its header as definition range (and the literal's type for primitive literal values), and no top-level target whose range is not such a declaration (or a count/for_each attribute / targetable body). Structural invariants on every collected tree, also on byte prefixes and token edits: a nested target's address (and local address) extends its parent's by exactly one step, and its block-local address ends in the same step as its absolute address; an index step of a block collection denotes the block's real position (list) or written key (map) and its range is exactly that block's extent; nested ranges lie inside their parent's; definition range inside range. distinct non-trivial = (declaration form, block type kind, nesting depth, dependent-body outcome) of declarations with a target, and nested targets per step kind.",
 		Assumptions: []string{"don't-care: relative order of same-address targets (C03), types of elements typed dynamic, everything inside dynamic blocks", "on broken files only the address rules of nested targets are monitored (parser recovery produces half blocks)"},
 		Floor:       map[string]int{"quick": 15, "thorough": 20},
 		CaseBudget:  60,
